@@ -58,6 +58,20 @@ Proof.
 Qed.
 Print Assumptions C10_pairs_build_exactly.
 
+(* HIF dict: isolated nodes, empty edges, incidences, all attribute dicts, network attributes *)
+Theorem C10_hif_dict_roundtrip : forall s, Inv s -> NoNone s ->
+  let r := from_hif (to_hif s) in
+  let t := st_of r in
+  out_of r = Ok /\ Inv t /\
+  (forall n e, In n (mems t e) <-> In n (mems s e)) /\
+  (forall x, In x (nkeys t) <-> In x (nkeys s)) /\
+  (forall y, In y (ekeys t) <-> In y (ekeys s)) /\
+  (forall n, In n (nkeys s) -> geta n (h_nattr t) = aupdate [] (geta n (h_nattr s))) /\
+  (forall e, In e (ekeys s) -> geta e (h_eattr t) = aupdate [] (geta e (h_eattr s))) /\
+  h_net t = h_net s.
+Proof. exact hif_roundtrip. Qed.
+Print Assumptions C10_hif_dict_roundtrip.
+
 (* the premises hold at every state reachable by an admissible history *)
 Theorem C10_reachable_Inv : forall ops, admissible_history hg_empty ops -> Inv (run ops hg_empty).
 Proof. intros ops A. apply run_Inv; [exact A|apply Inv_empty]. Qed.
